@@ -361,10 +361,10 @@ def main(tier: str) -> int:
                 meta.append((hi, "crash", k))
             # (round 1) longer tails: a failing compile between the kill and the re-run; a second kill during the re-run
             u = ck.rng.random()
-            if u < 0.10:
+            if u < 0.07:
                 crash_jobs.append(job_of(h, [dict(h["last"], crash_at=k), failing, dict(h["last"])]))
                 meta.append((hi, "crash+failed-compile", k))
-            elif u < 0.22:
+            elif u < 0.17:
                 k2 = ck.rng.randint(1, n_mut)
                 crash_jobs.append(job_of(h, [dict(h["last"], crash_at=k), dict(h["last"], crash_at=k2), dict(h["last"])]))
                 meta.append((hi, "crash+crash", (k, k2)))
@@ -459,8 +459,9 @@ def main(tier: str) -> int:
             continue
         if tag[0] == "recover" and is_torn_cert(job, tag[4]) and rc == 2 and not unexpected:
             fid = "C11-torn-cert"
-            ck.known(fid, (known.get(fid) or PROPOSED_KNOWN[fid])["what"])
-            continue
+            if fid in known:
+                ck.known(fid, known[fid]["what"])
+                continue
         n_r_bad += 1
         key = (tag[0], rc, res)
         if key in reported:
